@@ -105,6 +105,8 @@ struct World<'a> {
     no_delivery: BTreeMap<u8, (&'static str, String)>,
     /// ops executed so far (for reduced programs)
     prefix: Vec<Op>,
+    /// whether the latest decap may have changed label memory or contexts (anything but "unknown frag id")
+    last_class_changed_state: bool,
     cfg: Op,
 }
 
@@ -359,6 +361,7 @@ impl<'a> World<'a> {
         self.log.s(class);
         self.log.s(&errc);
         self.log.u(r.consumed().unwrap_or(0) as u64);
+        self.last_class_changed_state = errc != "Mem.UndefinedId";
         // reach: a first fragment refused while a reassembly of the same frag id was pending (each such exit of
         // decap_first has to give back what that reassembly held)
         if let (Some((Kind::First, _, _)), true, true) = (hdr, bytes.len() > 2, matches!(r, RxRes::Err(..))) {
@@ -1112,7 +1115,7 @@ impl Scenario for RxSim {
         let nbuf = (p.cfg.get_u("nbuf") as usize).min(slots + 2).min(if bufsize <= 256 { 260 } else { 12 });
         let table = dec_table(p.cfg.get_h("table"));
         let rx = RxNode::new(slots, maxpdu, table.clone(), false);
-        let mut w = World { target, rx, refrx: RefRx::default(), table, allowed: None, bufsize, log: H64::new(), decaps: 0, completed: 0, faults_in_train: 0, rejected_after_take: 0, viol: None, no_delivery: BTreeMap::new(), prefix: vec![], cfg: p.cfg.clone() };
+        let mut w = World { target, rx, refrx: RefRx::default(), table, allowed: None, bufsize, log: H64::new(), decaps: 0, completed: 0, faults_in_train: 0, rejected_after_take: 0, viol: None, no_delivery: BTreeMap::new(), prefix: vec![], last_class_changed_state: false, cfg: p.cfg.clone() };
         if target == "C08" {
             w.rx.led.borrow_mut().keep_trace = false;
         }
@@ -1246,6 +1249,10 @@ impl Scenario for RxSim {
                     let t = op.get_u("t");
                     let open_fid = w.rx.led.borrow().attached_ids().first().copied().unwrap_or(7);
                     st.inc("exhaustive_sweep_ops");
+                    // the state class this sweep is meant to cross with every input: the packets fed before it
+                    // re-establish it (open contexts, remembered label, free list) whenever an input disturbed it
+                    let state_pkts: Vec<Vec<u8>> = prog_ops.iter().take_while(|o| o.name != "sweep").filter(|o| o.name == "feed").map(|o| o.get_h("hex").to_vec()).collect();
+                    let ids0 = w.rx.led.borrow().attached_ids();
                     for k in a..a.saturating_add(n) {
                         let inp = match sweep_input(kind, k, t, open_fid) {
                             Some(i) => i,
@@ -1256,9 +1263,21 @@ impl Scenario for RxSim {
                         if stop {
                             break 'ops;
                         }
-                        // keep the state class stable-ish: return buffers at once
+                        // keep the state class stable: return buffers at once and, when the input changed the
+                        // receiver (anything but an unknown frag id leaves a trace), feed the state packets again
                         let nn = w.rx.app.len();
                         w.rx.give_back(nn);
+                        if !state_pkts.is_empty() && (w.last_class_changed_state || w.rx.led.borrow().attached_ids() != ids0) {
+                            st.inc("sweep_state_restored");
+                            for sp in &state_pkts {
+                                st.inc("lib_calls");
+                                if let RxRes::Ok(DecapStatus::CompletedPkt(b, _), _) = w.rx.decap(sp) {
+                                    w.rx.app.push(b);
+                                }
+                            }
+                            let nn = w.rx.app.len();
+                            w.rx.give_back(nn);
+                        }
                         w.prefix.push(Op::new("feed").h("hex", inp));
                         if w.prefix.len() > 64 {
                             // reduced programs only need the recent past; older inputs rarely matter and the
@@ -2124,7 +2143,12 @@ pub mod gen {
         let slots = rng.usize_in(1, 3);
         let n = rng.usize_in(3, 40);
         let mut ops = vec![];
-        let labs = [L6A, L6B, L3A, L3B, Lab::Bcast, Lab::ReUse, Lab::ReUse];
+        let labs = if rng.chance(1, 3) {
+            // confusable labels: same first bytes, last byte differs, all-zero 3-byte label
+            [Lab::L6([0x0A, 0x0B, 0x0C, 1, 2, 3]), Lab::L6([0x0A, 0x0B, 0x0C, 1, 2, 4]), *rng.pick(&[L3A, Lab::L3([0, 0, 0])]), *rng.pick(&[Lab::L3([0x0A, 0x0B, 0x0D]), Lab::L3([0, 0, 1])]), Lab::Bcast, Lab::ReUse, Lab::ReUse]
+        } else {
+            [L6A, L6B, L3A, L3B, Lab::Bcast, Lab::ReUse, Lab::ReUse]
+        };
         let mut fid = rng.below(256) as u8;
         let mut tbl = table.clone();
         for _ in 0..n {
